@@ -54,7 +54,7 @@ PROPERTY_META = {
                 design_ref='DESIGN.md 6 C01'),
     'C09': dict(claimed=True, level='proof',
                 text='AllocatorAwarePointer copy/move/swap contracts (unbounded, 16 trait combinations) give independence of storage and exact transfer of ownership; vector-level swap and move construction are verified against contracts that say the complete representation (capacity, block, table/stride, size, fixed sizes) is exchanged resp. transferred and the moved-from vector owns nothing.',
-                note='Copy construction/assignment and move assignment of whole vectors: see evidence for the units present.' + VEC_NOTE, design_ref='DESIGN.md 6 C09'),
+                note='Also under contract: vector copy construction, copy assignment and move assignment with the target smaller and larger than the source; self copy/move assignment, self swap and the use of a moved-from vector (clear, swap, assign to, destroy) are checked by assertions on the real functions.' + VEC_NOTE, design_ref='DESIGN.md 6 C09'),
     'C10': dict(claimed=True, level='proof',
                 text='The contract of the real reserve(n, b) says: n <= capacity() changes nothing and requests nothing; otherwise capacity()==n, size(), fixed sizes, allocator, stored bytes (witness byte) and element offsets (witness element) are unchanged, the new block is owned, aligned and at least as large as the budget calculate_element_size gives for n elements and b bytes, which is proved (unbounded) to bound every element extent.',
                 note='calculate_element_size budget lemma: proof per enumerated parameter list.' + VEC_NOTE, design_ref='DESIGN.md 6 C10'),
@@ -81,11 +81,11 @@ PROPERTY_META = {
                 design_ref='DESIGN.md 6 C14'),
     'C15': dict(claimed=True, level='model_checking',
                 text='The real cntgs::detail::uninitialized_construct (the single funnel of every FixedSize/VaryingSize store) is verified per stored type x source value type x source form (pointer, std::array lvalue and rvalue, C array, non-contiguous generated iterator, aliasing-safe path) against: stored item k == StoredType(source item k) evaluated in C on the scalar types for an arbitrary witness k, returned end == target + n items, and an assigns clause that contains only the target items (sources unmodified). emplace_at is proved (unbounded) to pass its arguments to these stores at the right addresses.',
-                note='Bounded: at most 4 items per span (copy loops unwound with unwinding assertions); the memcpy branch is covered by the copy model that is exact at the witness item. Class types with converting constructors, std::list and move_iterator sources are not under contract; conversions that are undefined in C++ (float out of range) are excluded by precondition.',
+                note='Bounded: at most 4 items per span (copy loops unwound with unwinding assertions); the memcpy branch is covered by the copy model that is exact at the witness item. For the non-trivial vf::Tracked the FixedSize store is verified to copy-construct every item of an lvalue std::array exactly once without moving from it, and to move from every item of an rvalue array exactly once. Class types with converting constructors, std::list and move_iterator sources are not under contract; conversions that are undefined in C++ (float out of range) are excluded by precondition.',
                 design_ref='DESIGN.md 6 C15'),
     'C11': dict(claimed=True, level='model_checking',
                 text='operator[] and iterator dereference (both const overloads) are verified to build a reference whose pointers are exactly the stored objects of the indexed element (so every access path denotes the same objects); iterator.data() is the element start; reference = reference is verified per list (trivial fields coalesced into memmove runs, vf::Tracked fields through the value type) against: trivial fields hold the source bytes (witness address), every non-trivial item is copy- resp. move-assigned exactly once from the item at the same place, an lvalue source is not moved from and not written; swap exchanges trivial bytes and swaps non-trivial items through their move operations.',
-                note='Bounded: span items <= 2, loops unwound; iterator arithmetic/comparison operators and the permuting std algorithms are not under contract (index arithmetic on a size_t member; libstdc++ algorithms trusted).' + VEC_NOTE,
+                note='Iterator +, -, ++, ==, <, <=, >, >= are proved (unbounded) to be index arithmetic on iterators of one vector. Bounded: span items <= 2, loops unwound in the reference-assignment units. The permuting std algorithms (rotate, reverse, swap_ranges) are not under contract: given faithful references and random-access iterators their behaviour is libstdc++ own specification (trusted).' + VEC_NOTE,
                 design_ref='DESIGN.md 6 C11'),
     'C06': dict(claimed=True, level='model_checking',
                 text='A ghost lifetime model of the non-trivial value type vf::Tracked (every special member reports to a hook; one arbitrary watched address) asserts inside every function under contract: no construction over an alive object, no read/assign/destroy of a dead object, no byte copy over an alive object; reference assignment, swap and ElementTraits::destruct are verified to construct nothing, destroy exactly the items of the element once, and assign each item through its own operator.',
@@ -93,7 +93,7 @@ PROPERTY_META = {
                 design_ref='DESIGN.md 6 C06'),
     'C17': dict(claimed=True, level='model_checking',
                 text='The exception-enabled IR of the real code is verified with an allocation hook that fails nondeterministically at every call (which covers failing the k-th allocation for every k): contracts of AllocatorAwarePointer construction/copy construction/copy assignment (unbounded, proof) and of vector construction, reserve, copy construction, copy assignment and move assignment between unequal allocators state for the exceptional exit: nothing leaked (live-block counter), no double free (ledger assertions), the source completely unchanged, the target still valid (owns its blocks, reported capacity fits its block); reaching std::terminate is an assertion failure.',
-                note='Exceptions are modelled by one pending flag (invoke/landingpad/resume lowered by the translator, calls to nounwind functions never propagate). Vector-level units are bounded in capacity/block size; ContiguousElement operations and non-trivial value types are not covered on the failure paths.',
+                note='Exceptions are modelled by one pending flag (invoke/landingpad/resume lowered by the translator, calls to nounwind functions never propagate). Vector-level units are bounded in capacity/block size. Of the ContiguousElement operations only move assignment between unequal allocators (varying list of vf::Tracked: the stored objects of the target stay alive when the allocation fails) is covered on the failure path.',
                 design_ref='DESIGN.md 6 C17'),
     'C18': dict(claimed=True, level='model_checking',
                 text='The pre-states of all vector-level contracts include never-filled vectors (address table content arbitrary), emptied vectors and capacity 0; size/empty/data_begin/data_end/clear/erase/reserve/swap/constructor contracts are discharged on them with all pointer checks on, so no result depends on an uninitialised table slot.',
